@@ -11,7 +11,7 @@ import prog  # noqa
 import progcommon as P  # noqa
 from lib import h2f  # noqa
 
-MODULES = ["InovesaModel.Props.C11"]
+MODULES = ["InovesaModel.Props.C11", "InovesaModel.Props.TiePhysics", "InovesaModel.Props.TiePS"]
 LEVEL = "proof"
 
 
